@@ -29,7 +29,10 @@ type pendInt struct {
 	deadline    time.Time
 	canBePrefix bool
 	// mustBeFresh is actually not useful, since Freshness is decided by the cache, not us.
-	mustBeFresh   bool
+	mustBeFresh bool
+	// hasImpSha256 tells whether the Interest name ends with an implicit digest component.
+	// The value alone cannot tell: a zero-length digest value may be nil or empty.
+	hasImpSha256  bool
 	impSha256     []byte
 	timeoutCancel func() error
 }
@@ -285,7 +288,7 @@ func (e *Engine) onData(pkt *spec.Data, sigCovered enc.Wire, raw enc.Wire, pitTo
 			}
 
 			// check ImplicitDigest256
-			if entry.impSha256 != nil {
+			if entry.hasImpSha256 {
 				h := sha256.New()
 				for _, buf := range raw {
 					h.Write(buf)
@@ -329,9 +332,11 @@ func (e *Engine) onNack(name enc.Name, reason uint64) {
 	// An Interest with an implicit digest is stored at the node of its name without the digest
 	// (see Express). A Nack only concerns the pending Interests that carry the nacked name, digest included.
 	var impSha256 []byte = nil
+	hasImpSha256 := false
 	nodeName := name
 	if len(name) > 0 && name[len(name)-1].Typ == enc.TypeImplicitSha256DigestComponent {
 		impSha256 = name[len(name)-1].Val
+		hasImpSha256 = true
 		nodeName = name[:len(name)-1]
 	}
 
@@ -347,7 +352,7 @@ func (e *Engine) onNack(name enc.Name, reason uint64) {
 	}
 	newList := make([]*pendInt, 0, len(n.Value()))
 	for _, entry := range n.Value() {
-		if !bytes.Equal(entry.impSha256, impSha256) {
+		if entry.hasImpSha256 != hasImpSha256 || !bytes.Equal(entry.impSha256, impSha256) {
 			newList = append(newList, entry)
 			continue
 		}
@@ -405,6 +410,7 @@ func (e *Engine) IsRunning() bool {
 
 func (e *Engine) Express(interest *ndn.EncodedInterest, callback ndn.ExpressCallbackFunc) error {
 	var impSha256 []byte = nil
+	hasImpSha256 := false
 
 	finalName := interest.FinalName
 	nodeName := interest.FinalName
@@ -420,6 +426,7 @@ func (e *Engine) Express(interest *ndn.EncodedInterest, callback ndn.ExpressCall
 	lastComp := finalName[len(finalName)-1]
 	if lastComp.Typ == enc.TypeImplicitSha256DigestComponent {
 		impSha256 = lastComp.Val
+		hasImpSha256 = true
 		nodeName = finalName[:len(finalName)-1]
 	}
 
@@ -472,6 +479,7 @@ func (e *Engine) Express(interest *ndn.EncodedInterest, callback ndn.ExpressCall
 			deadline:      deadline,
 			canBePrefix:   interest.Config.CanBePrefix,
 			mustBeFresh:   interest.Config.MustBeFresh,
+			hasImpSha256:  hasImpSha256,
 			impSha256:     impSha256,
 			timeoutCancel: e.timer.Schedule(lifetime+TimeoutMargin, timeoutFunc),
 		}
